@@ -9,6 +9,21 @@ from . import arrayrules as R
 from . import common as K
 
 
+def _shape_term(e, var):
+    """'exact' when `e` is the shape of `var` itself (`var.shape`, `numpy.shape(var)`, possibly inside tuple()/list());
+    'projection' when it is computed from it (a slice, a filtered copy, the rank, the size): a weaker comparison; else None"""
+    while isinstance(e, ast.Call) and isinstance(e.func, ast.Name) and e.func.id in ("tuple", "list") and len(e.args) == 1 and not e.keywords and not isinstance(e.args[0], (ast.GeneratorExp, ast.ListComp)):
+        e = e.args[0]
+    if isinstance(e, ast.Attribute) and e.attr == "shape" and isinstance(e.value, ast.Name) and e.value.id == var:
+        return "exact"
+    if isinstance(e, ast.Call) and isinstance(e.func, ast.Attribute) and e.func.attr == "shape" and len(e.args) == 1 and isinstance(e.args[0], ast.Name) and e.args[0].id == var:
+        return "exact"
+    for x in ast.walk(e):
+        if isinstance(x, ast.Attribute) and x.attr in ("shape", "ndim", "size") and isinstance(x.value, ast.Name) and x.value.id == var:
+            return "projection"
+    return None
+
+
 def check_validate(ctx, idx, rule="C05.c"):
     """validate_array_shapes raises when any two shapes differ; n-ary commands call it on the whole list before arithmetic."""
     mix = idx.cls("mpilot.libraries.eems.mixins", "SameArrayShapeMixin")
@@ -36,6 +51,12 @@ def check_validate(ctx, idx, rule="C05.c"):
             op = t.ast.ops[0]
             lab = "true" if isinstance(op, ast.NotEq) else "false" if isinstance(op, ast.Eq) else None
             if lab is None:
+                continue
+            te = K.expand(fi, t.ast)
+            terms = [_shape_term(x_, tgt.id) for x_ in [te.left] + list(te.comparators)]
+            if "projection" in terms and "exact" not in terms:
+                weak = K.src([x_ for x_ in [te.left] + list(te.comparators) if _shape_term(x_, tgt.id) == "projection"][0])
+                why = "the loop compares `%s`, a quantity computed from the shape, not the shapes themselves: arrays of different shapes (a column and a row, a grid and the same grid with an extra axis) pass the check and are broadcast against each other" % weak[:70]
                 continue
             diff = [m for m, l in t.succ if l == lab]
             if diff and raises and all(cfg.must_pass_through(m, head, set(raises)) and cfg.must_pass_through(m, cfg.exit, set(raises)) for m in diff):
@@ -75,6 +96,10 @@ def check_validate(ctx, idx, rule="C05.c"):
                 continue
             c0 = K.expand(fi, g.ifs[0])
             if not (isinstance(c0, ast.Compare) and len(c0.ops) == 1 and isinstance(c0.ops[0], ast.NotEq) and any(isinstance(x, ast.Attribute) and x.attr == "shape" and isinstance(x.value, ast.Name) and x.value.id == g.target.id for x in ast.walk(c0))):
+                continue
+            terms = [_shape_term(x_, g.target.id) for x_ in [c0.left] + list(c0.comparators)]
+            if "projection" in terms and "exact" not in terms:
+                why = "the shapes are compared through `%s`, a quantity computed from the shape, not the shapes themselves" % K.src(c0)[:70]
                 continue
             recorded = {n.targets[0].id}
             for t2 in cfg.find("test"):
